@@ -161,6 +161,13 @@ def match_known(known, prop, sig):
     for k in known.get('findings', []):
         if k['property'] == prop and k['signature'] == sig:
             return k
+    # a minimised case that still carries several named triggers (archsim: "<prop>|<family>|t1+t2") is a known
+    # finding when every one of its triggers is one on its own
+    parts = str(sig).split('|')
+    if len(parts) == 3 and '+' in parts[2]:
+        ks = [match_known(known, prop, '|'.join(parts[:2] + [t])) for t in parts[2].split('+')]
+        if all(k is not None for k in ks):
+            return ks[0]
     return None
 
 
